@@ -454,6 +454,14 @@ func runDescribe(t gen.Tier, r *gen.Rng, seed uint64, rep *Reporter) {
 					}
 				}
 			}
+			if i%5 == 0 {
+				// an application that edits the filter list it was handed (say, for a debug dump of
+				// other fields) edits its own copy: the defaults of the next Describe stay the defaults
+				fl := iso8583.DefaultFilters()
+				for k := range fl {
+					fl[k] = iso8583.FilterField(strconv.Itoa(900+k), iso8583.NoOpFilter)
+				}
+			}
 			var buf bytes.Buffer
 			_ = iso8583.Describe(m, &buf)
 			out := buf.String()
